@@ -1,7 +1,7 @@
 (* Command dispatcher of the executable model: bin/modelrun calls [run_cmd] and nothing else.
    All formatting of results is done here, in Gallina, so the OCaml glue stays trivial. *)
 From Coq Require Import List String Ascii Bool ZArith.
-From KV Require Import Strings PitchGen IntervalGen Pitch PitchSpec.
+From KV Require Import Strings PitchGen IntervalGen Pitch PitchSpec RunCat.
 Import ListNotations.
 Open Scope string_scope.
 
@@ -89,5 +89,8 @@ Definition run_pitch (cmd : string) (args : list string) : option string :=
 Definition run_cmd (cmd : string) (args : list string) : string :=
   match run_pitch cmd args with
   | Some r => r
+  | None =>
+  match run_cat cmd args with
+  | Some r => r
   | None => err "unknown-command"
-  end.
+  end end.
